@@ -173,7 +173,13 @@ def scenario_for(seed, index, tier, _random_only=False):
         'second_party': second,
         'server': {'conns': [{'login': login, 'play': play}] *
                    (2 if second else 1)},
-        'net': {'latency_us': rng.choice([50, 200, 2000])},
+        'net': {'latency_us': rng.choice([50, 200, 2000]),
+                # now and then a send() blocks for a while (slow peer): the
+                # writer stays inside its frame, holding the write lock
+                'send_stalls': ({str(rng.randrange(6, 60)): rng.choice(
+                    [2000, 80000, 400000, 6000000])
+                    for _ in range(rng.choice([1, 2, 4]))}
+                    if (not big and rng.random() < 0.1) else {})},
         'sched': {'granularity': 'line' if big else gran,
                   'max_steps': 3000000 if big else
                   (1500000 if gran == 'instr' else 400000)},
